@@ -305,7 +305,6 @@ func main() {
 	harness.Main(&harness.Spec{
 		Property: "C18",
 		Level:    "exploration",
-		Race:     true,
 		Rule:     "random histories of {block event, lookup hit/miss/unknown root, scripted fetch failure, clean at a random epoch} over 2-7 roots and 1-32 slots per epoch, judged step by step against a reference map and the provider's call counter; distinct = (length, set of step classes seen, roots); non-trivial = history exercised >=3 of {hit, miss-ok, miss-fail, clean-retain, clean-old, cleaned-observed, kept-old}; plus concurrent lookup/event/clean runs under the race detector",
 		Run: func(c *harness.Ctx) {
 			sequential(c)
